@@ -13,7 +13,7 @@ DISTINCT_RULE = (
     "response; plus simulation runs where orders complete in flight; distinct = distinct (kind, n, outcome vector, error plan, pre-event) plans executed"
 )
 RULES = ["post-state", "count", "retry-bound", "attribution", "sim-effect"]
-MINIMA = {"quick": {"rule_post-state": 1500, "rule_count": 1500, "rule_attribution": 600, "rule_sim-effect": 4000}, "thorough": {"rule_post-state": 12000}}
+MINIMA = {"quick": {"rule_post-state": 1500, "rule_count": 1500, "rule_attribution": 600, "rule_sim-effect": 4000}, "thorough": {"rule_post-state": 8000}}
 ASSUMPTIONS = [
     "the exchange double returns real betfairlightweight resources built from API-format JSON (DESIGN.md Appendix B')",
     "handler granularity: the execution pool is replaced by a controllable executor; the retry back-off sleep is virtual",
